@@ -61,6 +61,9 @@ def case_s():
         single = step.map(lambda x: [x])
         steps = st.lists(st.one_of(single, single, single, scenario, bystander), min_size=1, max_size=25).map(lambda ll: [x for l in ll for x in l][:40])
         return st.fixed_dictionaries({"n": st.just(n), "preload": st.sampled_from([False, False, False, True]), "restricted_last": st.booleans(),
+                                      # the last station holds a ticket of the root's second AA and does not know the first one: it asks for
+                                      # that AA certificate, which the others then distribute in requestedCertificate
+                                      "foreign_last": st.sampled_from([False, False, True]),
                                       "late": st.lists(st.integers(0, n - 1), max_size=3), "steps": steps})
     return st.integers(2, 4).flatmap(build)
 
@@ -83,10 +86,13 @@ def run_case(case):
         ats = [z.ats[i] for i in range(n)]
         if case["restricted_last"]:
             ats[n - 1] = z.at36
+        foreign = n - 1 if case.get("foreign_last") else None
+        if foreign is not None:
+            ats[foreign] = z.at_under_all()
         sts = []
         for i in range(n):
             known = [a for j, a in enumerate(ats) if j != i] if case["preload"] else []
-            s = secured_station(eth, MIDS[i], ats[i], known_ats=known)
+            s = secured_station(eth, MIDS[i], ats[i], known_ats=known, aas=[z.aa_all] if i == foreign else [z.aa, z.aa_all])
             s.set_position(clock.now, 413000000 + 700 * i, 21000000 - 500 * i)
             sts.append(s)
         eth.connect_all()
@@ -111,7 +117,7 @@ def run_case(case):
             s, t = stp["s"], stp["t"]
             if s in eth.muted:
                 continue
-            if case["restricted_last"] and s == n - 1 and t != "cam":
+            if case["restricted_last"] and foreign is None and s == n - 1 and t != "cam":
                 continue
             snd = sts[s]
             payload = bytes((11 * i + step_i + s) % 256 for i in range(stp["plen"]))
@@ -149,9 +155,13 @@ def run_case(case):
                 asked[s] = False
             eth.pump()
             # ---------------- (a) acceptance at every receiver
+            if "requestedCertificate" in info.get("fields", ()):
+                labels.add("requestedCertificate-on-air")
             for r in range(n):
                 if r == s or r in eth.muted:
                     continue
+                if r == foreign and s != foreign:
+                    continue            # the foreign station does not hold the sender's AA: whether and when it can accept is not judged
                 got = sts[r].btp_indications[PORT[t]][before[r]:]
                 expect = carries_cert or knows[r][s]
                 if expect:
@@ -186,7 +196,7 @@ def run_case(case):
                 st_.errors.clear()
             if vs:
                 break
-        nontrivial = bool(labels & {"digest-of-unknown-ticket", "gap-near-1s"})
+        nontrivial = bool(labels & {"digest-of-unknown-ticket", "gap-near-1s", "requestedCertificate-on-air"})
         return Outcome(vs, labels=sorted(labels), nontrivial=nontrivial)
     finally:
         clock.uninstall()
@@ -196,7 +206,7 @@ def check_profile(frame, t, payload, snd, own_digest, clock, vs, step_i):
     b = rc.parse_basic(frame[:4])
     if b["nh"] != rc.NH_SECURED:
         vs.append(violation(ID, "C05/emitted-unsecured:%s" % t, "step %d: %s left the station without security envelope" % (step_i, t)))
-        return {"signer": "none", "inline": []}
+        return {"signer": "none", "inline": [], "fields": []}
     d = pki.coder().decode_etsi_ts_103097_data_signed(frame[4:])
     sd = d["content"][1]
     hi = sd["tbsData"]["headerInfo"]
@@ -253,7 +263,7 @@ def check_profile(frame, t, payload, snd, own_digest, clock, vs, step_i):
     cert = snd.lib.own_certificates[own_digest].certificate
     if not pki.raw_verify(cert["toBeSigned"]["verifyKeyIndicator"][1], pki.coder().encode_to_be_signed_data(sd["tbsData"]), sd["signature"]):
         bad("signature", "signature does not verify under the station's ticket key")
-    return {"signer": signer[0], "inline": list(hi.get("inlineP2pcdRequest", []))}
+    return {"signer": signer[0], "inline": list(hi.get("inlineP2pcdRequest", [])), "fields": sorted(keys)}
 
 
 def job(n, seed):
